@@ -32,79 +32,104 @@ def _assert_eq_sides(node):
 
 
 def r1_r2_reshape(ctx):
+    """Tensor::reshape decided on its E6 summary.  The ways through it are classified by the variants of (self.shape, shape):
+       Single -> Single: the tensor is returned unchanged;  Triple -> Single: flatten();  * -> Triple: the data is rebuilt as the nest
+       (new channels) x (new rows) x (new columns) drawing one element per position from ONE iterator over get_flat(), and the new shape
+       and data are stored.  Every way that changes anything first establishes old count == new count (the other outcome panics)."""
+    from .. import e6
     c = ctx.crate
     fn = ctx.fn(T + "reshape")
-    ms = [x for x in walk(fn["body"]) if x.get("k") == "match" and x.get("src") == "Normal" and strip(x["scrut"]).get("k") == "tup"]
-    if not ms:
-        raise Unestablished("reshape: no match on (self.shape, shape)", c.loc(fn))
-    m = ms[0]
-    sc = [pretty(strip(x)) for x in strip(m["scrut"])["xs"]]
-    ctx.check("R14.1", "dispatch-on-old-and-new-shape", sc == ["self.shape", "shape"], "reshape-dispatch:" + ",".join(sc), c.loc(fn, m), "match (&self.shape, &shape)")
+    where = c.loc(fn)
+    E = e6.Exec(c, fn)
+    paths = E.run_fn()
+    SELF = ("p", "self")
+    OLD, NEW = ("field", SELF, "shape"), ("p", pat_binds(fn["params"][1])[0][0])
+    live = [p for p in paths if p.exit is None or p.exit[0] == "return"]
+    cases = {}
+    unclassified = 0
+    for p in live:
+        vs = e6.variant_of(p)
+        k = (vs.get(OLD, "?").split("::")[-1], vs.get(NEW, "?").split("::")[-1])
+        if "?" in k:
+            unclassified += 1
+        cases.setdefault(k, []).append(p)
+    ctx.check("R14.1", "dispatch-on-old-and-new-shape", bool(live) and unclassified == 0, "reshape-dispatch:%d" % unclassified, where, "match (&self.shape, &shape)",
+              "%d way(s) through reshape do not depend on both the tensor's shape and the requested one" % unclassified)
     n_arms = 0
-    for arm in m["arms"]:
-        pt = arm["pat"]
-        while pt.get("k") in ("ref", "deref"):
-            pt = pt["p"]
-        if pt.get("k") != "tuple" or len(pt["ps"]) != 2:
-            continue
-        sides = []
-        for q in pt["ps"]:
-            vp, binds = e4.arm_variant({"pat": q})
-            sides.append((vp.split("::")[-1], binds))
-        kinds = (sides[0][0], sides[1][0])
-        if "Triple" not in kinds:
+
+    def prod(base, kind):
+        n = 3 if kind == "Triple" else 1
+        return sorted(repr(("payload", base, "tensor::Shape::" + kind, i)) for i in range(n))
+
+    def factors(t):
+        t = e6.strip_upd(t)
+        if isinstance(t, tuple) and t and t[0] == "bin" and t[1] == "Mul":
+            return factors(t[2]) + factors(t[3])
+        if isinstance(t, tuple) and t and t[0] == "un" and t[1] == "Deref":
+            return factors(t[2])
+        return [repr(t)]
+    for kinds in (("Triple", "Triple"), ("Single", "Triple"), ("Triple", "Single")):
+        inst = "%s->%s" % kinds
+        ps = cases.get(kinds, [])
+        if not ps:
             continue
         n_arms += 1
-        inst = "%s->%s" % kinds
-        where = c.loc(fn, arm["body"])
-        env = {}
-        prods = []
-        for (kind, binds), tag in zip(sides, ("old", "new")):
-            p = Rat.const(1)
-            for nm, h in binds:
-                env[h] = Rat.atom("%s_%s" % (tag, nm))
-                p = p * env[h]
-            prods.append(p)
-        st = top_stmts_of(arm["body"])
-        asserts = [(i, x) for i, s in enumerate(st) for x in walk(s) if _assert_eq_sides(x)]
-        ok = False
-        got = "no assert_eq!"
-        if asserts:
-            i0, a = asserts[0]
-            l, r = _assert_eq_sides(a)
-            N = e1.Norm(c, env)
-            lv, rv = N.norm(l), N.norm(r)
-            got = "%s == %s" % (lv, rv)
-            ok = ((lv == prods[0] and rv == prods[1]) or (lv == prods[1] and rv == prods[0])) and _only_pure_lets(st[:i0]) and all(len(b) == (3 if k == "Triple" else 1) for (k, b) in sides)
-        ctx.check("R14.1", inst + ":count-assertion", ok, "count-assertion:" + short(got, 90), where, "assert_eq!(%s, %s) first" % (prods[0], prods[1]),
-                  "reshape %s asserts `%s`; it must compare the old element count %s with the new one %s (a wrong factor refuses valid reshapes and "
-                  "accepts truncating ones)" % (inst, got, prods[0], prods[1]))
-        # R14.2 rebuild
+        want = {tuple(prod(OLD, kinds[0])), tuple(prod(NEW, kinds[1]))}
+        ok = True
+        got = "no count comparison"
+        for p in ps:
+            found = False
+            for (t, pol) in p.pc:
+                if pol and isinstance(t, tuple) and t[0] == "bin" and t[1] == "Eq":
+                    sides = {tuple(sorted(factors(t[2]))), tuple(sorted(factors(t[3])))}
+                    got = "%s == %s" % (e6.show(t[2], 2)[:50], e6.show(t[3], 2)[:50])
+                    if sides == want:
+                        found = True
+            ok = ok and found
+        # .. and the refused case exists: some panicking path has the same comparison false
+        refused = any(q.exit is not None and q.exit[0] == "panic" and e6.variant_of(q).get(OLD, "").endswith(kinds[0]) and e6.variant_of(q).get(NEW, "").endswith(kinds[1])
+                      and any((not pol) and isinstance(t, tuple) and t[0] == "bin" and t[1] == "Eq" for (t, pol) in q.pc) for q in paths)
+        ctx.check("R14.1", inst + ":count-assertion", ok and refused, "count-assertion:" + short(got, 90), where, "assert_eq!(old count, new count) first",
+                  "reshape %s establishes `%s`; it must compare the old element count with the new one (a wrong factor refuses valid reshapes and "
+                  "accepts truncating ones)" % (inst, got))
         if kinds[1] == "Triple":
-            builds = [x for x in walk(arm["body"]) if x.get("k") == "call" and x["callee"] == "tensor::Data::Triple"]
-            okb = False
-            detail = ""
-            if len(builds) == 1:
-                nb = nested_range_build(builds[0]["args"][0])
-                if nb:
-                    dims, elem = nb
-                    dh = [e4.local_hid(d) for d in dims]
-                    want = [h for (_, h) in sides[1][1]]
-                    from ..hir import let_table, cpretty
-                    TT_ = let_table(fn["body"])
-                    its = [s for s in walk(arm["body"]) if s.get("k") == "let" and s["pat"].get("k") == "bind" and s["init"] is not None and cpretty(strip(s["init"]), TT_) == "self.get_flat().into_iter()"]
-                    el_ok = len(its) == 1 and pretty(elem) == "%s.next().unwrap()" % its[0]["pat"]["name"]
-                    okb = dh == want and el_ok
-                    detail = "ranges over %s, element %s" % ([pretty(d) for d in dims], short(pretty(elem), 40))
+            okb, oks, detail = True, True, ""
+            for p in ps:
+                val = p.val if p.exit is None else p.exit[1]
+                sets = {e[1]: e[2] for e in p.eff if e[0] == "set"}
+                dat = sets.get(("field", ("local", "self"), "data"))
+                shp = sets.get(("field", ("local", "self"), "shape"))
+                oks = oks and e6.root_name(val) in (None, "self") and e6.strip_upd(val) == SELF and shp == NEW and dat is not None and len(sets) == 2
+                d = e6.is_call(dat, "Triple", 1) if dat is not None else None
+                draw = lambda e: e[0] == "mut" and e[1].endswith("Iterator::next")
+                rn = e6.range_nest(E, d[0], draw) if d else None
+                wantd = [("payload", NEW, "tensor::Shape::Triple", i) for i in range(3)]
+                good = False
+                if rn is not None and [e6.strip_upd(x) for x in rn[0]] in (wantd, [("un", "Deref", x) for x in wantd]):
+                    u = e6.is_call(rn[1], "unwrap", 1) or e6.is_call(rn[1], "expect")
+                    nx = e6.is_call(u[0], "next", 1) if u else None
+                    src = nx[0] if nx else None
+                    entry = e6.entry_value(p, src) if src is not None else None
+                    if isinstance(src, tuple) and src[0] == "loopin" and entry is src:
+                        # a closure-built nest: the iterator is the local mutated inside the closures; its value at the start is the binding's
+                        for v_ in p.env.values():
+                            for x_ in e6.find_terms(v_, lambda y: y[0] in ("loopout",) and len(y) == 4 and y[1] == src[1]):
+                                entry = x_[3]
+                    flat = ("call", "tensor::Tensor::get_flat", (SELF,))
+                    good = len(rn[2]) == 1 and entry is not None and e6.strip_upd(entry) in (flat, ("call", "std::iter::IntoIterator::into_iter", (flat,)))
+                    detail = "ranges over %s, element %s from %s" % ([e6.show(x, 1) for x in rn[0]], e6.show(rn[1], 2)[:40], e6.show(entry, 2)[:50] if entry else "?")
+                else:
+                    detail = "data := %s" % (e6.show(dat, 3)[:100] if dat is not None else "(not stored)")
+                okb = okb and good
             ctx.check("R14.2", inst + ":row-major-rebuild", okb, "rebuild:" + short(detail, 90), where, "nested ranges (new channels, rows, columns) filled from one iterator over get_flat()",
                       "reshape %s rebuilds the data with %s; it must nest (channels, rows, columns) of the NEW shape over one sequential iterator of get_flat()" % (inst, detail))
-            asg = {pretty(strip(x["l"])): pretty(strip(x["r"])) for x in walk(arm["body"]) if x.get("k") == "assign"}
-            ctx.check("R14.3", inst + ":stores-shape-and-data", asg.get("self.shape") == "shape" and asg.get("self.data") == "data", "stored:" + str(sorted(asg.items()))[:80], where,
-                      "self.data = data; self.shape = shape")
+            ctx.check("R14.3", inst + ":stores-shape-and-data", oks, "stored", where, "self.data = data; self.shape = shape")
         else:
-            tl = strip(st[-1])
-            ctx.check("R14.2", inst + ":flatten", pretty(tl) == "self.flatten()", "triple-to-single:" + short(pretty(tl), 40), where, "self.flatten()")
-    ctx.check("R14.1", "arms-with-triple", n_arms == 3, "reshape-arms:%d" % n_arms, c.loc(fn, m), "Triple->Triple, Single->Triple, Triple->Single")
+            okf = all((p.val if p.exit is None else p.exit[1]) == ("call", "tensor::Tensor::flatten", (SELF,)) and not [e for e in p.eff if e[0] != "loop"] for p in ps)
+            ctx.check("R14.2", inst + ":flatten", okf, "triple-to-single:" + short(e6.show(ps[0].val if ps[0].exit is None else ps[0].exit[1], 2), 40), where, "self.flatten()")
+    ss = cases.get(("Single", "Single"), [])
+    ctx.check("R14.1", "arms-with-triple", n_arms == 3 and all((p.val if p.exit is None else p.exit[1]) == SELF and not p.eff for p in ss), "reshape-arms:%d" % n_arms, where,
+              "Triple->Triple, Single->Triple, Triple->Single (and Single->Single unchanged)")
 
 
 def r2_flatten(ctx):
